@@ -100,11 +100,9 @@ def main(argv=None):
         return 0
 
     mod = load_check(prop)
-    if a.tier == 'quick' or getattr(mod, 'SINGLE_PROCESS', False):
-        col, mod = run_shard(prop, a.tier, 0, 1)
-        return finalize(col, mod.META)
-
-    nsh = a.shards or NSHARDS
+    # every tier runs its workload in child processes under a generous wall-clock watchdog: a workload that does not come
+    # back (a hang inside the library, or in a C call no signal can interrupt) makes the run inconclusive, never "held"
+    nsh = 1 if a.tier == 'quick' or getattr(mod, 'SINGLE_PROCESS', False) else (a.shards or NSHARDS)
     col = Collector(prop, a.tier, 0, nsh)
     tmpdir = tempfile.mkdtemp(prefix='rv-%s-' % prop)
 
